@@ -5757,10 +5757,18 @@ def merge_parts(parts, reassign="voice"):
             # find how many voices this part has
             n_voices = len(unique_voices[p_ind])
             # build a mapping between the old and new voices
+            # four voices are reserved per staff of the previous parts (more
+            # for a part that has more voices than that)
+            n_previous_voices = sum(
+                max(4 * len(unique_staff), len(unique_voice))
+                for unique_staff, unique_voice in zip(
+                    unique_staves[:p_ind], unique_voices[:p_ind]
+                )
+            )
             voice_mapping = dict(
                 zip(
                     unique_voices[p_ind],
-                    n_previous_staves * 4 + np.arange(1, n_voices + 1),
+                    n_previous_voices + np.arange(1, n_voices + 1),
                 )
             )
         for e in p.iter_all():
